@@ -66,11 +66,12 @@ def handwritten_settings(st: Stream, kind: str, nf: int, *, name=None, features=
     d = {"leaspy_version": "2.0.2", "name": name or fam, "features": feats, "dimension": nf, "source_dimension": ns,
          "obs_models": {"y": ref.obs}, "fit_metrics": None, "parameters": params}
     if fam == "joint":
-        params["n_log_nu_mean"] = [r(-3.5, -1.5)]
-        params["log_rho_mean"] = [r(-0.3, 0.8)]
+        ne = info["nb_events"]
+        params["n_log_nu_mean"] = r(-3.5, -1.5, ne)
+        params["log_rho_mean"] = r(-0.3, 0.8, ne)
         if ns:
-            params["zeta_mean"] = [[round(0.3 * st.normal(), 4)] for _ in range(ns)]
-        d["nb_events"] = 1
+            params["zeta_mean"] = [[round(0.3 * st.normal(), 4) for _ in range(ne)] for _ in range(ns)]
+        d["nb_events"] = ne
     return d
 
 
